@@ -349,16 +349,24 @@ def _check_load_case(ctx: Ctx, name: str, case: dict, res: dict, model: List[str
     ctx.cov["traces_validated_against_impl"] += 1
     j = _diff(res, model)
     d = case["defaults"] if case.get("section", "present") == "present" else {}
-    ctx.case({"load": {"defaults": lrig.show_dict(d), "node": case["node"]}, "lines": [l for l in res["lines"][1:] if l != "dump"]},
+    ctx.case({"load": {"defaults": lrig.show_dict(d), "node": case["node"], "peers": case.get("peers"), "view": case.get("view")}, "lines": [l for l in res["lines"][1:] if l != "dump"]},
              any(k in d for k in lrig.KEYS))
     ctx.count("load:focus:" + case.get("focus", "?"))
+    if case.get("peers"):
+        ctx.count("load:multi:view:" + ("host0" if case.get("view", lrig.HOST) == lrig.HOST else "peer"))
+        ctx.count("load:multi:hosts=" + str(1 + len(case["peers"])))
+        vd = next((p_ for p_ in case["peers"] if p_["hostname"] == case.get("view")), None)
+        if vd is not None and any(e["type"] == "database-service" for e in vd["services"]):
+            ctx.count("load:multi:view-lists-database-service")
+        ctx.count("load:multi:ops-on-other-hosts", sum(1 for o in case["ops"] if o["op"] != "tick" and o.get("host", lrig.HOST) != case.get("view", lrig.HOST)))
     ctx.count("load:section:" + case.get("section", "present"))
     for k in lrig.KEYS:
         ctx.count(f"load:{k}=" + (lrig.show_val(d[k]) if k in d else "absent"))
     ctx.count("load:outcome:" + ("loaded" if res["loaded"] else "raised"))
-    for e in case["node"]["services"]:
+    vnode = next((p_ for p_ in case.get("peers", []) if p_["hostname"] == case.get("view")), case["node"])
+    for e in vnode["services"]:
         ctx.count("load:svc:" + e["type"] + (":own-fixing" if "fixing_duration" in e.get("options", {}) else ""))
-    for e in case["node"]["applications"]:
+    for e in vnode["applications"]:
         ctx.count("load:app:" + e["type"])
     # completed timed transitions seen on loaded services: RESTARTING at one dump, RUNNING at a later one
     for q, m in zip(res["lines"], model):
@@ -594,11 +602,20 @@ def run(ctx: Ctx):
     _LOAD_REPORTED.clear()
     for f in sorted((VERIF / "corpus" / "C13" / "load").glob("*.json")):
         load_cases.append(("corpus:load/" + f.name, json.loads(f.read_text())["case"]))
+    def views(name: str, c: dict):
+        # a scenario with several hosts is compared once per host (`view`): the specification line, the oracle and the registry /
+        # lifecycle model of THAT host, while the operations on the other hosts and the whole-game steps run on the real game
+        if not c.get("peers"):
+            return [(name, c)]
+        return [(f"{name}@{h}", dict(c, view=h)) for h in [lrig.HOST] + [p_["hostname"] for p_ in c["peers"]]]
     for k, c in enumerate(lrig.enum_load_cases()):
-        load_cases.append((f"load-enum:{k}", c))
+        load_cases += views(f"load-enum:{k}", c)
     lrng = ctx.rng.fork("load")
-    for k in range(ctx.scale(200, 4000)):
+    for k in range(ctx.scale(140, 3000)):
         load_cases.append((f"load-gen:{k}", lrig.gen_load_case(lrng, max_ops=ctx.scale(20, 36))))
+    mrng = ctx.rng.fork("load-multi")
+    for k in range(ctx.scale(40, 800)):
+        load_cases += views(f"load-multi:{k}", lrig.gen_load_case(mrng, max_ops=ctx.scale(16, 30), multi=True))
     results, lines_all, bounds = [], [], []
     for name, case in load_cases:
         res = lrig.run_load_case(case, guards)
@@ -747,6 +764,9 @@ def run(ctx: Ctx):
     ctx.oblige("rig:R-relay (two hosts; FTP client / server, C2 server / beacon: every real receive / send call vs its translated chain) agrees",
                "correspondence", ragree == len(relay_cases), f"{len(relay_cases) - ragree} of {len(relay_cases)} cases disagree")
     ctx.cov["relay_calls_compared"] = rcalls
+    missing = [c for c in rrig.TARGETS for m in ("receive", "send") if (m, c) not in rrig.NAMES]
+    ctx.oblige("rig:R-relay the driver carries the translated chains of the FTP and C2 classes", "correspondence", not missing,
+               "no translated chain in the driver for " + ", ".join(missing))
 
     # -- R-c2: one apply_timestep of a real C2Beacon / C2Server in every connection state, and the verdict of _check_connection
     c2rng = ctx.rng.fork("c2")
